@@ -285,6 +285,9 @@ func opDet(args []string) string {
 		case "php":
 			a := []string{"--language=php", "--outdir=" + out, "--php-use-builtin-data-providers", "--php-serialization-bodies", "--php-generate-meta"}
 			v, _ = runEnv(os.Getenv("VERIF_TL2GEN"), env, append(a, roots...)...)
+		case "phplite":
+			a := []string{"--language=php", "--outdir=" + out, "--php-use-builtin-data-providers"}
+			v, _ = runEnv(os.Getenv("VERIF_TL2GEN"), env, append(a, roots...)...)
 		case "tlo", "canonical", "tljson.html":
 			if err := os.MkdirAll(out, 0755); err != nil {
 				panic(err)
@@ -303,10 +306,10 @@ func opDet(args []string) string {
 		default:
 			return "bad-op"
 		}
-		if v == "panic" || v == "crash" {
+		if v == "crash" {
 			return v
 		}
-		sig := v
+		sig := v // "panic" is compared like a verdict: C15 is about equal behaviour of repeated runs
 		if v == "ok" {
 			h, n := hashTree(out)
 			sig = fmt.Sprintf("ok %d %s", n, h)
